@@ -116,6 +116,7 @@ h("cont.H_OptionalFault", map[string]int{"rounds": 3, "order_schemes": 1}, map[s
 			h("cont.H_Build", bld(6, 4, 1), bld(6, 4, 2), append([]string{"model_conflict"}, buildCov...), 0, buildDesc+"; profile 6: four registrations, interface-typed groups with several members in front of / behind a plain dependency"),
 			h("cont.H_Rebuild", with2(bld(1, 2, 1), "edit", 1), with2(bld(1, 2, 2), "edit", 1), append([]string{"first_build_ok", "first_build_failed"}, buildCov...), 0, "a collection is built while one (symbolic) registration of the world is still missing; that registration is added afterwards: the provider built before never runs its constructor and holds nothing scoped in a non-scoped instance; the second Build judges the full set like a fresh collection and returns the verdict class a fresh collection with the same registrations returns"),
 			h("cont.H_Rebuild", with2(bld(5, 4, 1), "edit", 1), with2(bld(5, 4, 2), "edit", 1), append([]string{"first_build_ok", "first_build_failed"}, buildCov...), 0, "a collection is built while one (symbolic) registration of the world is still missing; that registration is added afterwards: the provider built before never runs its constructor and holds nothing scoped in a non-scoped instance; the second Build judges the full set like a fresh collection and returns the verdict class a fresh collection with the same registrations returns"),
+			h("cont.H_Build", with2(bld(1, 2, 1), "rejected", 1), with2(bld(1, 2, 2), "rejected", 1), append([]string{"rejected_add"}, buildCov...), 0, buildDesc+"; before Build a registration with two aliases in a group is rejected on its second alias (the caller carries on): nothing of it takes part in the Build"),
 			h("cont.H_KeyedLifetimes", map[string]int{"order_schemes": 2}, map[string]int{"order_schemes": 4}, []string{"built_twice", "model_conflict"}, 20, keyedLifeDesc),
 		}},
 	)
@@ -209,6 +210,17 @@ h("cont.H_OptionalFault", map[string]int{"rounds": 3, "order_schemes": 1}, map[s
 			web("harness_fiber", "webh.H_Fiber", []string{"request_done"}, webDesc("fiber (inside a real fiber app on a fasthttp RequestCtx, served like the fasthttp server: handler, then release of user values; optionally fiber's own recover middleware in front; scope in Locals and in the user context)")),
 		}},
 	)
+	for i := range properties {
+		if properties[i].ID == "C14" {
+			properties[i].Harnesses = append(properties[i].Harnesses,
+				web("harness_http", "webh.H_Http", []string{"request_done"}, "(C14 at the level of the request cycle) "+webDesc("net/http")+"; after every request, on every exit path: the request's scope is closed, its context cancelled, the goroutine count back to what it was before the first request"),
+				web("harness_chi", "webh.H_Chi", []string{"request_done"}, "(C14 at the level of the request cycle) "+webDesc("chi")),
+				web("harness_gin", "webh.H_Gin", []string{"request_done"}, "(C14 at the level of the request cycle) "+webDesc("gin")),
+				web("harness_echo", "webh.H_Echo", []string{"request_done"}, "(C14 at the level of the request cycle) "+webDesc("echo")),
+				web("harness_fiber", "webh.H_Fiber", []string{"request_done"}, "(C14 at the level of the request cycle) "+webDesc("fiber")),
+			)
+		}
+	}
 	hc := h("cont.H_Conc", conc(1), conc(1), []string{"both_done"}, 10, concDesc)
 	hrace := h("cont.H_Conc", map[string]int{"ops": 1, "order_schemes": 1, "race": 1, "worlds": 4}, map[string]int{"ops": 1, "order_schemes": 1, "race": 1, "worlds": 4}, []string{"both_done"}, 0, concDesc+"; with the VM's happens-before (vector clock) race detector on every memory cell and map the container's own code touches; a race is confirmed by Go's race detector on free-running native goroutines")
 	hc1 := hc // hrace explores the same space with the race detector on: the plain run stays small in the quick tier
